@@ -13,7 +13,9 @@
 //!    configuration alone");
 //!  * ground truth: method/uri/version/peer/headers in each dump equal the request that was sent;
 //!  * release: the number of live request-extension values equals the number inserted into
-//!    requests that still have a live handle (book-keeping of the harness itself).
+//!    requests that still have a live handle; connection data lives exactly as long as its
+//!    connection or a request of it; application data lives exactly as long as the service or a
+//!    request handle (book-keeping of the harness itself).
 use std::{
     cell::{Cell, RefCell},
     collections::{BTreeMap, BTreeSet},
@@ -35,8 +37,8 @@ use crate::common::{block_on_system, CaseResult, Ctx, Rng};
 
 const RULE: &str = "case = history of tokens through one service instance of a fixed app (nested scopes with scoped \
 app_data, named/unnamed/guarded resources, default service, app-level middleware): R = request (method, uri, version, \
-peer, headers, request-level extensions; handler actions: insert typed extensions, stash clones, never complete), \
-D/V/E/C = drop / dump / extend / clone a stashed handle, X = drop the service; histories of 1..40 tokens plus long ones \
+peer (set, unset, or never mentioned by the builder), headers, request-level extensions; handler actions: insert typed extensions, stash clones, never complete, park while later requests run), \
+D/V/E/C = drop / dump / extend / clone a stashed handle, G = resume a parked handler, X = drop the service; histories of 1..40 tokens plus long ones \
 with >128 simultaneously live requests; a case is non-trivial if at least one request was served from a recycled \
 allocation (harness book-keeping of the pool); distinct = distinct (case, output) hashes";
 
@@ -60,7 +62,7 @@ impl Drop for Alive {
 struct E1(u32, #[allow(dead_code)] Alive);
 struct E2(u32, #[allow(dead_code)] Alive);
 struct E3(u32, #[allow(dead_code)] Alive);
-struct DA(u32);
+struct DA(u32, #[allow(dead_code)] Option<Alive>);
 struct DB(u32);
 struct DC(u32);
 pub struct ConnProbe(pub u32, #[allow(dead_code)] Alive);
@@ -70,6 +72,8 @@ enum Act {
     Ext(u32, u32),
     Stash(u32),
     Cancel,
+    /// park on gate n after the other actions
+    Park(u32),
 }
 
 #[derive(Default)]
@@ -79,6 +83,9 @@ struct Shared {
     stash: RefCell<BTreeMap<u32, HttpRequest>>,
     ext_alive: Rc<Cell<isize>>,
     conn_alive: Rc<Cell<isize>>,
+    app_alive: Rc<Cell<isize>>,
+    /// gates of parked handlers
+    parked: RefCell<BTreeMap<u32, tokio::sync::oneshot::Sender<()>>>,
 }
 
 fn insert_ext(req: &HttpRequest, alive: &Rc<Cell<isize>>, t: u32, v: u32) {
@@ -109,7 +116,7 @@ fn dump(r: &HttpRequest) -> String {
         actix_web::http::Version::HTTP_2 => "2",
         _ => "?",
     };
-    let hs: Vec<String> = ["x-a", "x-b", "x-g"]
+    let hs: Vec<String> = ["x-a", "x-b", "x-g", "host"]
         .iter()
         .map(|n| {
             let vs: Vec<String> = r.headers().get_all(*n).map(|v| v.to_str().unwrap_or("?").to_owned()).collect();
@@ -121,11 +128,13 @@ fn dump(r: &HttpRequest) -> String {
         })
         .collect();
     let ps: Vec<String> = r.match_info().iter().map(|(k, v)| format!("{k}:{v}")).collect();
+    // derived data cached in the request extensions on first use
+    let ci = r.connection_info().host().to_owned();
     let ext = r.extensions();
     let xs = [ext.get::<E1>().map(|e| e.0), ext.get::<E2>().map(|e| e.0), ext.get::<E3>().map(|e| e.0)];
     let ds = [r.app_data::<DA>().map(|d| d.0), r.app_data::<DB>().map(|d| d.0), r.app_data::<DC>().map(|d| d.0)];
     format!(
-        "m={};u={};v={};p={};H={}/n{};P={};U={};X={};c={};D={};n={};t={}",
+        "m={};u={};v={};p={};H={}/n{};P={};U={};X={};c={};D={};ci={};n={};t={}",
         r.method(),
         r.uri(),
         ver,
@@ -137,6 +146,7 @@ fn dump(r: &HttpRequest) -> String {
         xs.iter().map(|x| opt(*x)).collect::<Vec<_>>().join(","),
         opt(r.conn_data::<ConnProbe>().map(|c| c.0)),
         ds.iter().map(|x| opt(*x)).collect::<Vec<_>>().join(","),
+        ci,
         r.match_name().unwrap_or("-"),
         r.match_pattern().unwrap_or_else(|| "-".into()),
     )
@@ -154,11 +164,23 @@ async fn handler(req: HttpRequest, sh: Rc<Shared>) -> HttpResponse {
                 drop(old);
             }
             Act::Cancel => cancel = true,
+            Act::Park(_) => {}
         }
     }
     if cancel {
         drop(req);
         std::future::pending::<()>().await;
+        unreachable!();
+    }
+    let park = acts.iter().find_map(|a| if let Act::Park(p) = a { Some(*p) } else { None });
+    if let Some(p) = park {
+        if !sh.parked.borrow().contains_key(&p) {
+            let (tx, rx) = tokio::sync::oneshot::channel();
+            sh.parked.borrow_mut().insert(p, tx);
+            // other requests are served while this handler waits
+            let _ = rx.await;
+            sh.dumps.borrow_mut().push(dump(&req));
+        }
     }
     HttpResponse::Ok().finish()
 }
@@ -184,7 +206,7 @@ fn build_app(
 > {
     let mw = sh.clone();
     App::new()
-        .app_data(DA(0))
+        .app_data(DA(0, Some(Alive::new(&sh.app_alive))))
         .wrap_fn(move |req: ServiceRequest, srv| {
             let sh = mw.clone();
             sh.dumps.borrow_mut().push(dump(req.request()));
@@ -199,7 +221,7 @@ fn build_app(
         .service(web::resource("/u/{id}").name("user").app_data(DB(1)).to(h!(sh)))
         .service(
             web::scope("/s/{sid}")
-                .app_data(DA(2))
+                .app_data(DA(2, None))
                 .app_data(DC(2))
                 .service(web::resource("/r/{rid}").name("sr").to(h!(sh)))
                 .service(
@@ -225,6 +247,9 @@ struct ReqTok {
     uri: String,
     ver: String,
     peer: Option<u32>,
+    /// peer written as `~`: build the request with `actix_http::test::TestRequest` and do not
+    /// mention the peer address at all
+    raw: bool,
     hdrs: Vec<(String, String)>,
     reqdata: Vec<(u32, u32)>,
     acts: Vec<Act>,
@@ -237,6 +262,7 @@ enum Tok {
     V(u32),
     E(u32, u32, u32),
     C(u32, u32),
+    G(u32),
     X,
     Q(u32),
     M(String),
@@ -282,6 +308,9 @@ fn parse_act(s: &str) -> Option<Act> {
     if let Some(r) = s.strip_prefix('k') {
         return slot(r).map(Act::Stash);
     }
+    if let Some(r) = s.strip_prefix('p') {
+        return r.parse().ok().map(Act::Park);
+    }
     if let Some(r) = s.strip_prefix('e') {
         let p: Vec<&str> = r.split('=').collect();
         if p.len() == 2 {
@@ -303,7 +332,8 @@ fn parse_tok(t: &str) -> Tok {
                 method: method.to_string(),
                 uri: uri.to_string(),
                 ver: ver.to_string(),
-                peer: opt_nat(peer)?,
+                peer: if *peer == "~" { None } else { opt_nat(peer)? },
+                raw: *peer == "~",
                 hdrs: pairs(hdrs)?,
                 reqdata: nat_pairs(xd)?,
                 acts: if *acts == "-" { vec![] } else { acts.split(',').map(parse_act).collect::<Option<Vec<_>>>()? },
@@ -318,6 +348,7 @@ fn parse_tok(t: &str) -> Tok {
                 Tok::E(slot(s)?, q[0].parse().ok()?, q[1].parse().ok()?)
             }
             ["C", s, s2] => Tok::C(slot(s)?, slot(s2)?),
+            ["G", n] => Tok::G(n.parse().ok()?),
             ["X"] => Tok::X,
             ["Q", c] => Tok::Q(c.parse().ok()?),
             _ => return None,
@@ -328,6 +359,20 @@ fn parse_tok(t: &str) -> Tok {
 
 fn build_request(sh: &Shared, r: &ReqTok) -> Request {
     use actix_web::http::{Method, Version};
+    if r.raw {
+        let mut t = actix_http::test::TestRequest::default();
+        t.method(Method::from_bytes(r.method.as_bytes()).unwrap_or(Method::GET)).uri(&r.uri).version(match r.ver.as_str() {
+            "10" => Version::HTTP_10,
+            "2" => Version::HTTP_2,
+            _ => Version::HTTP_11,
+        });
+        for (k, v) in &r.hdrs {
+            t.append_header((k.as_str(), v.as_str()));
+        }
+        let req = t.finish();
+        add_reqdata(sh, r, &req);
+        return req;
+    }
     let mut t = test::TestRequest::default()
         .method(Method::from_bytes(r.method.as_bytes()).unwrap_or(Method::GET))
         .uri(&r.uri)
@@ -343,6 +388,11 @@ fn build_request(sh: &Shared, r: &ReqTok) -> Request {
         t = t.append_header((k.as_str(), v.as_str()));
     }
     let req = t.to_request();
+    add_reqdata(sh, r, &req);
+    req
+}
+
+fn add_reqdata(sh: &Shared, r: &ReqTok, req: &Request) {
     for (ty, v) in &r.reqdata {
         let a = Alive::new(&sh.ext_alive);
         match ty {
@@ -358,7 +408,6 @@ fn build_request(sh: &Shared, r: &ReqTok) -> Request {
             _ => {}
         }
     }
-    req
 }
 
 /// tokens that act on stashed handles only (same in both modes)
@@ -402,13 +451,14 @@ fn slot_token(sh: &Shared, tok: &Tok) -> Option<String> {
     })
 }
 
-type Outs = Vec<(String, isize, isize)>;
+type Outs = Vec<(String, isize, isize, isize)>;
 
 /// mode `svc`: outputs of one history on one fresh `test::init_service` instance:
 /// per token (text, live ext values, live conn data)
 async fn run_history_svc(toks: &[Tok]) -> Outs {
     let sh = Rc::new(Shared::default());
     let mut svc = Some(test::init_service(build_app(&sh)).await);
+    let mut tasks: BTreeMap<u32, actix_rt::task::JoinHandle<()>> = BTreeMap::new();
     let mut outs = Vec::with_capacity(toks.len());
     for tok in toks {
         let text = match tok {
@@ -419,10 +469,21 @@ async fn run_history_svc(toks: &[Tok]) -> Outs {
                     *sh.acts.borrow_mut() = r.acts.clone();
                     sh.dumps.borrow_mut().clear();
                     let mut fut: Pin<Box<dyn Future<Output = _>>> = Box::pin(s.call(req));
+                    let park = r.acts.iter().find_map(|a| if let Act::Park(p) = a { Some(*p) } else { None });
                     if r.acts.contains(&Act::Cancel) {
                         // poll once, then drop the service future while the handler is pending
                         let _ = std::future::poll_fn(|cx| Poll::Ready(fut.as_mut().poll(cx).is_ready())).await;
                         drop(fut);
+                    } else if let Some(p) = park.filter(|p| !sh.parked.borrow().contains_key(p)) {
+                        // run the request as its own task; it parks inside the handler
+                        let task = actix_rt::spawn(async move {
+                            let res = fut.await;
+                            drop(res);
+                        });
+                        while !sh.parked.borrow().contains_key(&p) && !task.is_finished() {
+                            tokio::task::yield_now().await;
+                        }
+                        tasks.insert(p, task);
                     } else {
                         let res = fut.await;
                         drop(res);
@@ -437,11 +498,28 @@ async fn run_history_svc(toks: &[Tok]) -> Outs {
                 "ok".to_owned()
             }
             Tok::Q(_) => "ok".to_owned(),
+            Tok::G(p) => {
+                let tx = sh.parked.borrow_mut().remove(p);
+                match (tx, tasks.remove(p)) {
+                    (Some(tx), Some(task)) => {
+                        sh.dumps.borrow_mut().clear();
+                        let _ = tx.send(());
+                        let _ = task.await;
+                        let d = sh.dumps.borrow().join("|");
+                        d
+                    }
+                    _ => "-".to_owned(),
+                }
+            }
             other => slot_token(&sh, other).unwrap(),
         };
-        outs.push((text, sh.ext_alive.get(), sh.conn_alive.get()));
+        outs.push((text, sh.ext_alive.get(), sh.conn_alive.get(), sh.app_alive.get()));
     }
     // release everything before the runtime goes away
+    sh.parked.borrow_mut().clear();
+    for (_, t) in tasks {
+        let _ = t.await;
+    }
     sh.stash.borrow_mut().clear();
     drop(svc);
     outs
@@ -477,7 +555,7 @@ async fn run_history_h1(toks: &[Tok]) -> Outs {
     for tok in toks {
         let text = match tok {
             Tok::R(r) => match (&svc, r.conn) {
-                (Some(s), Some(c)) if !r.acts.contains(&Act::Cancel) && r.reqdata.is_empty() => {
+                (Some(s), Some(c)) if h1_supported(r) => {
                     if !conns.contains_key(&c) {
                         let (client, server) = tokio::io::duplex(1 << 16);
                         cur_conn.set(c);
@@ -525,6 +603,7 @@ async fn run_history_h1(toks: &[Tok]) -> Outs {
                 svc = None;
                 "ok".to_owned()
             }
+            Tok::G(_) => "-".to_owned(),
             Tok::Q(c) => {
                 if let Some(c) = conns.remove(c) {
                     close_conn(c).await;
@@ -533,7 +612,7 @@ async fn run_history_h1(toks: &[Tok]) -> Outs {
             }
             other => slot_token(&sh, other).unwrap(),
         };
-        outs.push((text, sh.ext_alive.get(), sh.conn_alive.get()));
+        outs.push((text, sh.ext_alive.get(), sh.conn_alive.get(), sh.app_alive.get()));
     }
     sh.stash.borrow_mut().clear();
     for (_, c) in std::mem::take(&mut conns) {
@@ -541,6 +620,10 @@ async fn run_history_h1(toks: &[Tok]) -> Outs {
     }
     drop(svc);
     outs
+}
+
+fn h1_supported(r: &ReqTok) -> bool {
+    r.reqdata.is_empty() && !r.acts.iter().any(|a| matches!(a, Act::Cancel | Act::Park(_)))
 }
 
 fn is_h1(toks: &[Tok]) -> bool {
@@ -577,6 +660,7 @@ struct Book {
     reuse: bool,
     overflow: bool,
     outlive: bool,
+    parked: bool,
     max_live: usize,
 }
 
@@ -622,7 +706,7 @@ fn field<'a>(dump: &'a str, key: &str) -> &'a str {
 }
 
 fn expected_head(r: &ReqTok) -> String {
-    let hs: Vec<String> = ["x-a", "x-b", "x-g"]
+    let hs: Vec<String> = ["x-a", "x-b", "x-g", "host"]
         .iter()
         .map(|n| {
             let vs: Vec<&str> = r.hdrs.iter().filter(|(k, _)| k == n).map(|(_, v)| v.as_str()).collect();
@@ -649,7 +733,7 @@ fn run(line: &str) -> CaseResult {
             match tok {
                 Tok::R(r)
                     if b.alive_svc
-                        && (!h1 || (r.conn.is_some() && !r.acts.contains(&Act::Cancel) && r.reqdata.is_empty())) =>
+                        && (!h1 || (r.conn.is_some() && h1_supported(r))) =>
                 {
                     let k = b.ext_types.len();
                     b.conn_of.push(if h1 { r.conn } else { None });
@@ -661,10 +745,19 @@ fn run(line: &str) -> CaseResult {
                         b.reuse = true;
                     }
                     b.ext_types.push(r.reqdata.iter().map(|e| e.0).filter(|t| (1..=3).contains(t)).collect());
+                    // a park action on an occupied gate is ignored: the projection must not park either
+                    let ptok = match r.acts.iter().find_map(|a| if let Act::Park(p) = a { Some(1000 + *p) } else { None }) {
+                        Some(p) if b.owner.contains_key(&p) => {
+                            let mut r2 = r.clone();
+                            r2.acts.retain(|a| !matches!(a, Act::Park(_)));
+                            Tok::R(r2)
+                        }
+                        _ => tok.clone(),
+                    };
                     b.proj.push(if h1 {
-                        vec![(Tok::M("h1".into()), None), (tok.clone(), Some(j))]
+                        vec![(Tok::M("h1".into()), None), (ptok, Some(j))]
                     } else {
-                        vec![(tok.clone(), Some(j))]
+                        vec![(ptok, Some(j))]
                     });
                     for a in &r.acts {
                         match a {
@@ -673,6 +766,16 @@ fn run(line: &str) -> CaseResult {
                             }
                             Act::Stash(s) => b.bind(*s, k, Some(k)),
                             _ => {}
+                        }
+                    }
+                    // a parked handler keeps its request alive in a pseudo slot until the gate opens
+                    if let (false, Some(p)) = (
+                        r.acts.contains(&Act::Cancel),
+                        r.acts.iter().find_map(|a| if let Act::Park(p) = a { Some(1000 + *p) } else { None }),
+                    ) {
+                        if !b.owner.contains_key(&p) {
+                            b.bind(p, k, Some(k));
+                            b.parked = true;
                         }
                     }
                     b.released(k);
@@ -691,6 +794,12 @@ fn run(line: &str) -> CaseResult {
                     }
                 }
                 Tok::R(_) => {}
+                Tok::G(p) => {
+                    if let Some(k) = b.owner.remove(&(1000 + *p)) {
+                        b.proj[k].push((tok.clone(), Some(j)));
+                        b.released(k);
+                    }
+                }
                 Tok::D(s) => {
                     if let Some(k) = b.owner.remove(s) {
                         b.proj[k].push((tok.clone(), Some(j)));
@@ -738,6 +847,13 @@ fn run(line: &str) -> CaseResult {
             b.max_live = b.max_live.max(live);
             // release oracle
             let want = b.expected_alive();
+            let awant = (b.alive_svc || live > 0) as isize;
+            if outs[j].3 != awant && fails.iter().all(|f| f.0 != "app-data-release") {
+                fails.push((
+                    "app-data-release".into(),
+                    format!("after token {j}: application data alive={} although service alive={} and {} requests have a live handle", outs[j].3, b.alive_svc, live),
+                ));
+            }
             let cwant = b.expected_conn_alive();
             if h1 && outs[j].2 != cwant && fails.iter().all(|f| f.0 != "conn-data-release") {
                 fails.push((
@@ -774,7 +890,7 @@ fn run(line: &str) -> CaseResult {
         }
         (outs, fails, b)
     });
-    let output: Vec<String> = outs.iter().map(|o| format!("{}#{},{}", o.0, o.1, o.2)).collect();
+    let output: Vec<String> = outs.iter().map(|o| format!("{}#{},{},{}", o.0, o.1, o.2, o.3)).collect();
     let mut tags = Vec::new();
     if book.reuse {
         tags.push("reuse".to_owned());
@@ -787,6 +903,9 @@ fn run(line: &str) -> CaseResult {
     }
     if !book.alive_svc {
         tags.push("service-dropped".to_owned());
+    }
+    if book.parked {
+        tags.push("parked-handler".to_owned());
     }
     if toks.iter().any(|t| matches!(t, Tok::R(r) if r.acts.contains(&Act::Cancel))) {
         tags.push("cancelled".to_owned());
@@ -819,7 +938,7 @@ fn first_diff(a: &str, b: &str) -> String {
 // ---------------------------------------------------------------------------------------------
 // generator
 
-const SEGS: &[&str] = &["1", "22", "a", "zz9", "p", "r", "n", "g", "x.y", "-"];
+const SEGS: &[&str] = &["1", "22", "a", "zz9", "p", "r", "n", "g", "x.y", "-", "%61", "a%2Fb", "%7Ez%2b", "%%41"];
 
 fn gen_uri(rng: &mut Rng) -> String {
     let s = |rng: &mut Rng| rng.pick(SEGS).to_string();
@@ -850,10 +969,15 @@ fn gen_uri(rng: &mut Rng) -> String {
 fn gen_req(rng: &mut Rng, slots: u32) -> String {
     let method = *rng.pick(&["GET", "GET", "POST", "PUT"]);
     let ver = *rng.pick(&["11", "11", "10", "2"]);
-    let peer = if rng.chance(1, 3) { rng.range(1000, 1003).to_string() } else { "-".into() };
+    // `~`: built with actix_http's TestRequest, which never mentions the peer address
+    let peer = match rng.below(6) {
+        0 | 1 => rng.range(1000, 1003).to_string(),
+        2 => "~".into(),
+        _ => "-".into(),
+    };
     let mut hdrs = Vec::new();
     for _ in 0..rng.below(4) {
-        hdrs.push(format!("{}={}", rng.pick(&["x-a", "x-b", "x-g", "x-g", "x-z"]), rng.pick(&["1", "2", "v"])));
+        hdrs.push(format!("{}={}", rng.pick(&["x-a", "x-b", "x-g", "x-g", "x-z", "host"]), rng.pick(&["1", "2", "v"])));
     }
     let mut xd = Vec::new();
     if rng.chance(1, 5) {
@@ -865,7 +989,14 @@ fn gen_req(rng: &mut Rng, slots: u32) -> String {
     for _ in 0..rng.below(4) {
         match rng.below(5) {
             0 | 1 => acts.push(format!("e{}={}", rng.range(1, 3), rng.below(10))),
-            2 | 3 => acts.push(format!("k{}", rng.range(1, slots as usize))),
+            2 => acts.push(format!("k{}", rng.range(1, slots as usize))),
+            3 => {
+                if rng.chance(1, 2) {
+                    acts.push(format!("p{}", rng.range(1, 2)))
+                } else {
+                    acts.push(format!("k{}", rng.range(1, slots as usize)))
+                }
+            }
             _ => {
                 if rng.chance(1, 3) {
                     acts.push("x".to_owned())
@@ -887,12 +1018,12 @@ fn gen_history(rng: &mut Rng, n: usize, slots: u32) -> String {
             14..=15 => format!("V:{s}"),
             16 => format!("E:{s}:{}={}", rng.range(1, 3), rng.below(10)),
             17 => format!("C:{s}:{}", rng.range(1, slots as usize)),
-            18 => format!("V:{s}"),
+            18 => format!("G:{}", rng.range(1, 2)),
             _ => {
                 if rng.chance(1, 6) {
                     "X".to_owned()
                 } else {
-                    format!("D:{s}")
+                    format!("G:{}", rng.range(1, 2))
                 }
             }
         });
@@ -909,7 +1040,7 @@ fn gen_overflow(rng: &mut Rng) -> String {
         // force exactly one stash into slot s
         let idx = r.rfind(':').unwrap();
         let acts: Vec<String> =
-            r[idx + 1..].split(',').filter(|a| !a.starts_with('k') && *a != "x" && *a != "-").map(|a| a.to_owned()).collect();
+            r[idx + 1..].split(',').filter(|a| !a.starts_with('k') && !a.starts_with('p') && *a != "x" && *a != "-").map(|a| a.to_owned()).collect();
         r.truncate(idx + 1);
         let mut acts = acts;
         acts.push(format!("k{s}"));
@@ -951,7 +1082,7 @@ fn gen_h1(rng: &mut Rng, n: usize, slots: u32) -> String {
                 let r = gen_req(rng, slots);
                 // R:<conn>:<method>:<uri>:<ver>:<peer>:<hdrs>:<reqdata>:<acts>
                 let p: Vec<&str> = r.split(':').collect();
-                let acts: Vec<&str> = p[8].split(',').filter(|a| *a != "x" && *a != "-").collect();
+                let acts: Vec<&str> = p[8].split(',').filter(|a| *a != "x" && *a != "-" && !a.starts_with('p')).collect();
                 let peer = if c % 2 == 1 { (2000 + c).to_string() } else { "-".to_owned() };
                 format!(
                     "R:{c}:{}:{}:11:{peer}:{}:-:{}",
